@@ -59,6 +59,15 @@ pub fn apply_baseline_comparison(results: &mut [CheckResult], baseline: &Baselin
             continue;
         }
 
+        // Only the kinds of violation a baseline can record (line count, file count,
+        // sub-directory count) are grandfathered: a denied file, a depth, naming or sibling
+        // violation on a recorded path is a new violation, not the recorded one.
+        if is_structure_violation_result(result)
+            && parse_structure_violation_from_result(result).is_none()
+        {
+            continue;
+        }
+
         let path_str = crate::baseline::baseline_key(result.path());
         if baseline.contains(&path_str) {
             // Replace the result with its grandfathered version
